@@ -55,6 +55,9 @@ func cmdC02(args []string) {
 		v := &vf.V[i]
 		sh := dynShape(v.T, v.V)
 		shapes[sh]++
+		if i%61 == 7 {
+			refusedRound() // refused.go: refused operations must leave nothing behind
+		}
 		c02Vector(res, v, sh, distinct)
 		if len(c02Held) >= 64 || i == len(vf.V)-1 {
 			c02CheckHeld(res)
@@ -93,6 +96,7 @@ func cmdC02(args []string) {
 	res.SetExtra("vectors", len(vf.V))
 	res.SetExtra("shapes", shapes)
 	res.SetExtra("held_values_rechecked", c02Rechecked)
+	res.SetExtra("rounds_of_refused_operations_between_vectors", refusedRounds)
 	emit(res)
 }
 
@@ -303,6 +307,9 @@ func cmdC03(args []string) {
 		}
 		sh := shape(v.T, v.V)
 		shapes[sh]++
+		if i%61 == 7 {
+			refusedRound() // refused.go: refused operations must leave nothing behind
+		}
 		c03Vector(res, v, sh, distinct, proto, agree)
 		if len(c03Held) >= 64 || i == len(vf.V)-1 {
 			c03CheckHeld(res)
@@ -316,6 +323,7 @@ func cmdC03(args []string) {
 	res.SetExtra("decode_into_library_go_type", c03TypedStats)
 	res.SetExtra("held_reader_results_rechecked", c03Rechecked)
 	res.SetExtra("decodes_into_used_destination", c03UsedN)
+	res.SetExtra("rounds_of_refused_operations_between_vectors", refusedRounds)
 	emit(res)
 }
 
